@@ -138,6 +138,24 @@ def pyNone : Str := [78, 111, 110, 101]
 def dropHalf (last : Str) (h : Half) : Str :=
   if isInfix h.text last then (if h.len = 0 then [] else last.take (last.length - h.len)) else last
 
+/-- the unit lookup of `parse` once the last key is known (the body of `parseUnit` after `unit_keys[-1]`) -/
+def lookupUnit (sp : Nat → Bool) (lower : Str → Str) (unitMap : Dict) (connector : Str) (text : Str) (last : Str) :
+    Option Str :=
+  let norm := lower last
+  let (last, norm) :=
+    if connector ≠ [] ∧ startsWith norm connector then
+      (strip sp (last.drop connector.length), strip sp (norm.drop connector.length))
+    else (last, norm)
+  let last := deleteBrackets last
+  let norm := deleteBrackets norm
+  if text ≠ [] ∧ unitMap ≠ [] then
+    match dget unitMap last with
+    | some u => if u ≠ [] then some u else none
+    | none => match dget unitMap norm with
+      | some u => if u ≠ [] then some u else none
+      | none => none
+  else none
+
 /-- `NumberWithUnitParser.parse` for an extract result that carries a number (`data` an ExtractResult, or the
 `[number, half]` pair of the Chinese half expansion). `numRes` = `resolution_str` of `internal_number_parser.parse(number)`
 (`none` when the number has no text or the parser gives `None`) — the number parser is the C03/C04 model, a parameter
@@ -150,29 +168,15 @@ def parseFull (sp : Nat → Bool) (lower : Str → Str) (unitMap : Dict) (connec
     let last := match half with
       | some h => dropHalf last h
       | none => last
-    let norm := lower last
-    let (last, norm) :=
-      if connector ≠ [] ∧ startsWith norm connector then
-        (strip sp (last.drop connector.length), strip sp (norm.drop connector.length))
-      else (last, norm)
-    let last := deleteBrackets last
-    let norm := deleteBrackets norm
-    if text ≠ [] ∧ unitMap ≠ [] then
-      let uv := match dget unitMap last with
-        | some u => some u
-        | none => dget unitMap norm
-      match uv with
-      | some u =>
-        if u ≠ [] then
-          match half with
-          | none => .unitValue numRes u (strip sp (numRes.getD pyNone ++ [32] ++ u))
-          | some h =>
-            match numRes, h.res with
-            | some r, some hr => .unitValue (some (r ++ hr.drop 1)) u (strip sp (r ++ hr.drop 1 ++ [32] ++ u))
-            | _, _ => .typeError
-        else .noValue
-      | none => .noValue
-    else .noValue
+    match lookupUnit sp lower unitMap connector text last with
+    | some u =>
+      match half with
+      | none => .unitValue numRes u (strip sp (numRes.getD pyNone ++ [32] ++ u))
+      | some h =>
+        match numRes, h.res with
+        | some r, some hr => .unitValue (some (r ++ hr.drop 1)) u (strip sp (r ++ hr.drop 1 ++ [32] ++ u))
+        | _, _ => .typeError
+    | none => .noValue
 
 /-- `BaseCurrencyParser.parse` (simple case): the ISO code attached to a unit; a code starting with `_` is a fake
 ISO code and yields a plain UnitValue (no `isoCurrency` key). Result: `none` = no isoCurrency key,
